@@ -4,4 +4,5 @@ CONSTANTS
   Catalogue <- QuickCatalogue
   GuardEnabled = TRUE
   NoThread = 0
+  RecursiveScrape = FALSE
 PROPERTIES Termination
